@@ -150,6 +150,19 @@ def check(run, prog, tier):
     run.ob("C10-b", "clock-after-drain", ok, why, co.file, inc[0][2].get("l"), "call_out", what="call_out(): the slot clock advances while entries of the slot are still pending")
 
     # ---- C10-c
+    def expanded(e, depth=0):
+        """text of e with every local that has exactly one definition replaced by that definition (a test of
+        `owner->flags` with `owner = cop->ob ? cop->ob : ...` is a test of the call_out's object)"""
+        txt = show(e)
+        if depth > 2:
+            return txt
+        for x in walk(e):
+            if x.get("k") == "Ref" and x.get("d") == "local" and x.get("id") is not None:
+                defs = [n2["R"] for b2, i2, n2 in co.nodes() if n2.get("k") == "Asg" and n2.get("op") == "=" and strip(n2["L"]).get("k") == "Ref" and strip(n2["L"]).get("id") == x["id"]]
+                defs += [v["init"] for b2, i2, n2 in co.nodes() if n2.get("k") == "Decl" for v in n2.get("vars", ()) if v.get("id") == x["id"] and isinstance(v.get("init"), dict)]
+                if len(defs) == 1:
+                    txt += " /*%s=*/ %s" % (x.get("n"), expanded(defs[0], depth + 1))
+        return txt
     ap = [(b, i, n) for b, i, n in invoke if n["fn"] == "apply"]
     edges = set()
     for bid in co.reachable():
@@ -157,7 +170,7 @@ def check(run, prog, tier):
         if c is None:
             continue
         e, t = normalize_cond(c, True)
-        if facts.any_in_macro(e, "O_DESTRUCTED") and "cop->ob" in show(e):
+        if facts.any_in_macro(e, "O_DESTRUCTED") and "cop->ob" in expanded(e):
             blk = co.blocks[bid]
             s = blk.succ[1] if t else blk.succ[0]  # edge where the flag test is false
             if s is not None:
@@ -183,7 +196,7 @@ def check(run, prog, tier):
             if c is None:
                 continue
             e, t = normalize_cond(c, True)
-            if facts.any_in_macro(e, "O_DESTRUCTED") and "owner" in show(e):
+            if facts.any_in_macro(e, "O_DESTRUCTED") and "hdr.owner" in expanded(e):
                 blk = co.blocks[bid]
                 s2 = blk.succ[1] if t else blk.succ[0]
                 if s2 is not None:
